@@ -15,7 +15,9 @@ RULE = (
     "sown into a fresh crop, every batch read back by growing it with a "
     "recording function; plus crops of 101-257 batches; plus (farmer "
     "constants) the farmer's stored constants / resources changed and the "
-    "same Crop object sown again; non-trivial = N >= 2 and at least 2 batches"
+    "same Crop object sown again; plus (case lists) the same Crop object "
+    "sown again with exactly one batch less work (refused, or right); "
+    "non-trivial = N >= 2 and at least 2 batches"
 )
 ASSUMPTIONS = [
     "batch contents are observed through xyz.grow(i, crop, fn=recorder), "
@@ -62,7 +64,7 @@ def build_inputs(n, kind):
     if kind == "cases":
         cases = [[vals(n)[i], (i * 5 + 2) % 9] for i in range(n)]
         return None, ["a", "b"], cases
-    if kind == "mix":
+    if kind in ("mix", "mix2"):
         shape = factorise(n)
         n2 = shape[-1] if len(shape) > 1 else 1
         n1 = n // n2
@@ -80,12 +82,13 @@ def cases(tier, seed):
             ("grid", 3, "farmer"), ("cases", False, "const"),
             ("cases", True, "farmer"), ("cases", 3, "none"),
             ("mix", False, "farmer"), ("mix", True, "none"),
-            ("mix", 3, "const"), ("grid", False, "farmer-override"),
+            ("mix", 3, "const"), ("mix2", False, "none"),
+            ("mix2", True, "const"), ("grid", False, "farmer-override"),
             ("cases", False, "farmer-override"),
         ]
     else:
         variants = list(itertools.product(
-            ("grid", "cases", "mix"), (False, True, 3),
+            ("grid", "cases", "mix", "mix2"), (False, True, 3),
             ("none", "const", "farmer", "farmer-override")))
     for n in range(1, nmax + 1):
         reqs = [("batchsize", s) for s in range(1, n + 2)]
@@ -181,13 +184,18 @@ def check_case(case):
         sow_consts = dict(override) if override else None
     else:
         crop = xyz.Crop(fn=f, name="c7", parent_dir=d,
-                        shuffle=(shuffle if kind == "cases" else False),
+                        shuffle=(shuffle if kind in ("cases", "mix2")
+                                 else False),
                         **kws)
         sow_consts = dict(constants) if constants else None
 
     def sow():
         sc = dict(sow_consts) if sow_consts else None
-        if kind == "cases":
+        if kind == "mix2":
+            # cases x sub-grid through sow_cases (sub-grid in parsed form)
+            crop.sow_cases(fn_args, list(dcases), constants=sc, verbosity=0,
+                           combos=tuple(copy.deepcopy(dcombos).items()))
+        elif kind == "cases":
             crop.sow_cases(fn_args, list(dcases), constants=sc, verbosity=0)
         elif kind == "grid":
             crop.sow_combos(copy.deepcopy(dcombos), constants=sc,
@@ -287,6 +295,54 @@ def check_case(case):
         except Exception as e:
             vio.append((tag("resow-raised:" + type(e).__name__),
                         "sowing the same Crop object again raised %r" % e))
+    # ---- the same Crop object sown again with exactly one batch less work:
+    # either refused (the remembered batch settings no longer fit) or the
+    # new numbers and partition are right ------------------------------------
+    n2 = None
+    if kind == "cases" and not farmer:
+        if mode == "batchsize" and n - req >= 1:
+            n2 = n - req
+        elif mode == "num_batches" and req <= n and n % req == 0 and \
+                n - n // req >= 1:
+            n2 = n - n // req
+    if n2 is not None:
+        _, fa2, cs2 = build_inputs(n2, "cases")
+        dc2 = [tuple(c) for c in cs2]
+        with xfn.CallLog() as direct3:
+            xyz.case_runner(f, fa2, list(dc2), constants=dict(constants),
+                            verbosity=0)
+        want3 = collections.Counter(direct3.encs())
+        try:
+            crop.sow_cases(fa2, list(dc2), constants=dict(constants)
+                           if constants else None, verbosity=0)
+            refused = False
+        except ValueError:
+            refused = True
+        except Exception as e:
+            refused = True
+            vio.append((tag("less-raised:" + type(e).__name__),
+                        "sowing %d settings after %d raised %r" % (n2, n, e)))
+        if not refused:
+            B2 = math.ceil(n2 / req) if mode == "batchsize" else min(req, n2)
+            c4 = xyz.Crop(name="c7", parent_dir=d)
+            got3 = collections.Counter()
+            if (crop.num_batches, c4.num_batches, c4.num_sown_batches) != (
+                    B2, B2, B2):
+                vio.append((tag("less-count"),
+                            "after sowing %d settings over %d the crop "
+                            "reports num_batches=%r (reloaded %r, sown files "
+                            "%r), expected %d" % (
+                                n2, n, crop.num_batches, c4.num_batches,
+                                c4.num_sown_batches, B2)))
+            else:
+                with xfn.CallLog() as log:
+                    for i in range(1, B2 + 1):
+                        grow(i, crop=c4, fn=f, verbosity=0)
+                got3.update(log.encs())
+                if got3 != want3:
+                    vio.append((tag("less-partition"),
+                                "after sowing %d settings over %d the batches "
+                                "do not partition the direct run" % (n2, n)))
     return {
         "nontrivial": n >= 2 and B >= 2,
         "outcome": "B=%d,sizes=%s" % (B, sorted(set(sizes))),
